@@ -71,6 +71,9 @@ func NewVoteDB(db youdb.Database, rawSk *ecdsa.PrivateKey) *VoteDB {
 		} else {
 			v.mark = make(map[VoteType]uint8)
 			v.mark[VoteType(vote.VoteType)] = 1
+			// a record of a later (round, index): the marks now describe THAT context
+			v.round = vote.Round
+			v.roundIndex = vote.RoundIndex
 		}
 	}
 
